@@ -129,15 +129,23 @@ def int_domain(tier: str) -> List[int]:
 def _shard_ints(shard: int, nshards: int, extra) -> Tally:
     structured, lo, hi = extra
     t = Tally()
+    def safe(n):
+        try:
+            return check_int(n, t)
+        except HarnessError:
+            raise
+        except Exception as e:
+            return [Violation(["varint", "raised", iclass(n)], f"n={n}: {type(e).__name__}: {e}", {"part": "int", "n": str(n)})]
+
     for n in range(lo + shard, hi, nshards):
         t.inc("ints")
-        for v in check_int(n, t):
+        for v in safe(n):
             t.violate(v)
     for i, n in enumerate(structured):
         if i % nshards == shard:
             t.inc("ints")
             t.mark("classes", iclass(n))
-            for v in check_int(n, t):
+            for v in safe(n):
                 t.violate(v)
     if shard == 0:
         t.sample({"int": str(structured[len(structured) // 2])})
